@@ -25,6 +25,10 @@ type Layout struct {
 	// Multibyte: comments and padding may contain multi-byte runes, so byte
 	// columns differ from rune columns.
 	Multibyte bool
+	// Compact: an operator may be glued to its operands (`a+b`, `0x1e-c`,
+	// `x=1`): blanks around an operator are optional where the two
+	// neighbouring bytes cannot form another token.
+	Compact bool
 }
 
 type gap uint8
@@ -185,6 +189,18 @@ func (p *printer) flush(next string) {
 	if len(p.b) > 0 && len(next) > 0 {
 		a, c := p.b[len(p.b)-1], next[0]
 		safe := strings.IndexByte("()[]{},;:", a) >= 0 || strings.IndexByte("()[]{},;:", c) >= 0
+		if !safe && lay.Compact {
+			// exactly one side is an operator byte and the other a letter,
+			// digit, underscore, quote or multi-byte rune
+			const ops = "+-*/%=<>!&|"
+			aop, cop := strings.IndexByte(ops, a) >= 0, strings.IndexByte(ops, c) >= 0
+			word := func(b byte) bool {
+				return b == '_' || b == '"' || b == '\'' || b == '`' || b >= 0x80 || '0' <= b && b <= '9' || 'a' <= b && b <= 'z' || 'A' <= b && b <= 'Z'
+			}
+			if aop != cop && (aop && word(c) || cop && word(a)) && r.Intn(2) == 0 {
+				return
+			}
+		}
 		if !safe {
 			min = 1
 		}
